@@ -23,6 +23,7 @@ func init() {
 const (
 	lvlCustErr   = slog.Level(30) // registered for the error device
 	lvlCustPlain = slog.Level(31) // registered, normal device
+	lvlCustGated = slog.Level(32) // registered, gated like Error but NOT for the error device: normal writers
 )
 
 type fdCapture struct {
@@ -240,6 +241,7 @@ func newC03env() (*c03env, error) {
 	}
 	_ = slog.RegisterLevel(lvlCustErr, "custerr", slog.RegWithTreatedAsLevel(slog.ErrorLevel), slog.RegWithPrintToErrorDevice(true))
 	_ = slog.RegisterLevel(lvlCustPlain, "custplain", slog.RegWithTreatedAsLevel(slog.InfoLevel))
+	_ = slog.RegisterLevel(lvlCustGated, "custgated", slog.RegWithTreatedAsLevel(slog.ErrorLevel))
 	slog.AddFlags(slog.LnoInterrupt)
 	slog.RemoveFlags(slog.Lcaller)
 	return e, nil
@@ -306,7 +308,7 @@ func (e *c03env) asOpt(o wop) slog.Opt {
 }
 
 var probeSevs = []slog.Level{slog.InfoLevel, slog.ErrorLevel, slog.DebugLevel, slog.WarnLevel, slog.TraceLevel, slog.PanicLevel, slog.AlwaysLevel, slog.FatalLevel,
-	slog.OKLevel, slog.FailLevel, slog.SuccessLevel, lvlCustErr, lvlCustPlain, slog.Level(88)}
+	slog.OKLevel, slog.FailLevel, slog.SuccessLevel, lvlCustErr, lvlCustPlain, lvlCustGated, slog.Level(88)}
 
 type c03viol struct{ clause, detail string }
 
@@ -314,9 +316,6 @@ type c03viol struct{ clause, detail string }
 // option form) to a fresh logger of the given kind, probes every severity and compares with the model.
 func (e *c03env) runSeq(kind string, viaOpts bool, ops []wop, rp func(k string, n int64)) []c03viol {
 	model := newModel()
-	for _, o := range ops {
-		model.apply(o)
-	}
 	var lg *slog.Entry
 	mk := func(opts ...any) *slog.Entry {
 		e.seq++
@@ -335,16 +334,33 @@ func (e *c03env) runSeq(kind string, viaOpts bool, ops []wop, rp func(k string, 
 		var opts []any
 		for _, o := range ops {
 			opts = append(opts, e.asOpt(o))
+			model.apply(o)
 		}
 		lg = mk(opts...)
-	} else {
-		lg = mk()
-		for _, o := range ops {
-			e.applyMethod(lg, o)
-		}
+		lg.SetColorMode(false)
+		lg.SetLevel(slog.AlwaysLevel)
+		return e.probeAll(lg, model, rp)
 	}
+	lg = mk()
 	lg.SetColorMode(false)
 	lg.SetLevel(slog.AlwaysLevel)
+	// probe after EVERY operation: records emitted between two reconfigurations must not
+	// influence where later records go (e.g. a route cached at the first emission)
+	if out := e.probeAll(lg, model, rp); len(out) > 0 {
+		return out
+	}
+	for _, o := range ops {
+		e.applyMethod(lg, o)
+		model.apply(o)
+		if out := e.probeAll(lg, model, rp); len(out) > 0 {
+			return out
+		}
+	}
+	return nil
+}
+
+// probeAll issues one probe record per severity and compares per-writer counts with the model.
+func (e *c03env) probeAll(lg *slog.Entry, model *wmodel, rp func(k string, n int64)) []c03viol {
 	var out []c03viol
 	for _, sev := range probeSevs {
 		e.seq++
@@ -447,7 +463,7 @@ func (e *c03env) judge(c *Ctx, idx int, kind string, viaOpts bool, ops []wop) {
 	c.R.NonTrivial(kind, fmt.Sprint(viaOpts), opsString(ops))
 	if len(vs) == 0 {
 		if c.R.WantSample() && len(ops) >= 2 {
-			c.R.Sample(idx, map[string]any{"logger": kind, "via_options": viaOpts, "ops": opsString(ops), "writer_shapes": e.shape}, "all 14 probe severities were routed as the model says")
+			c.R.Sample(idx, map[string]any{"logger": kind, "via_options": viaOpts, "ops": opsString(ops), "writer_shapes": e.shape}, "all 15 probe severities were routed as the model says after every operation")
 		}
 		return
 	}
